@@ -1305,6 +1305,14 @@ func (m *Matcher) readerKeySt(st state, fr *frame, e ast.Expr, prefer interface{
 	if !ok || call == nil {
 		return k
 	}
+	// an accessor of the stream (in.readArrayLen()): the read it stands for
+	if ex, ok := m.X.accessor[call]; ok {
+		if rc, ok := stripConv(fr.ctx, ex).(*ast.CallExpr); ok {
+			if _, bound := st.e.rbind[rc]; bound {
+				return rc
+			}
+		}
+	}
 	var id *ast.Ident
 	switch f := ast.Unparen(call.Fun).(type) {
 	case *ast.Ident:
